@@ -69,6 +69,14 @@ class Tree:
                 self.mkproject(os.path.join(job.path, "nested", "proj"), depth + 1)
         if rng.random() < 0.4:
             p.update_cache()
+            if rng.random() < 0.4:
+                # a cache file cut short by an interrupted copy: discovery has no business reading it
+                fn = os.path.join(path, model.CACHE_FILE)
+                if os.path.exists(fn):
+                    with open(fn, "rb") as f:
+                        data = f.read()
+                    with open(fn, "wb") as f:
+                        f.write(data[: len(data) // 2])
         if depth < 3 and rng.random() < 0.4:
             self.mkproject(os.path.join(path, "sub", f"inner{depth}"), depth + 1)
         if rng.random() < 0.5:
